@@ -510,8 +510,14 @@ class Arr:
                     i = int(i._as_scalar())
                 elif i.kind == "bool":
                     if len(idx) != 1:
-                        raise ShimUnsupported("boolean mask combined with other indices")
-                    return [("mask", i)]
+                        # x[:, mask] and the like: a 1-d mask is the list of positions where it is true (decided by forking)
+                        if i.dim() != 1:
+                            raise ShimUnsupported("multi-dimensional boolean mask combined with other indices")
+                        i = [k for k, mk in enumerate(i._flat()) if bool(_to_bool(mk))]
+                        if not i:
+                            raise ShimUnsupported("empty boolean mask combined with other indices")
+                    else:
+                        return [("mask", i)]
             elif isinstance(i, bool):
                 raise ShimUnsupported("bool index")
             out.append(i)
@@ -596,6 +602,15 @@ class Arr:
 
     def __setitem__(self, idx, val):
         if isinstance(idx, Arr) and idx.kind == "bool":
+            if isinstance(val, Arr) and val.numel() != 1 or (isinstance(val, Arr) and tuple(idx.shape) != tuple(self.shape)):
+                # x[mask] = values : a 1-d mask over the first dimension; the true positions receive the slices of `values` in order
+                if idx.dim() != 1 or idx.shape[0] != self.shape[0]:
+                    raise ShimUnsupported("boolean-mask assignment with a mask that is not 1-d over the first dimension")
+                pos = [k for k, mk in enumerate(idx._flat()) if bool(_to_bool(mk))]
+                if not pos:
+                    return
+                self[pos] = val
+                return
             # boolean-mask assignment of a scalar: x[mask] = v
             if tuple(idx.shape) != tuple(self.shape) or isinstance(val, Arr) and val.numel() != 1:
                 raise ShimUnsupported("boolean-mask assignment of a non-scalar")
